@@ -337,6 +337,115 @@ func c08Params(base map[string]interface{}, args []string) map[string]interface{
 	return p
 }
 
+// c08PairArgs: the arguments the pairs job calls a method with.
+func c08PairArgs(m *c08Method) []string {
+	n := m.Arities[len(m.Arities)-1]
+	a := make([]string, n)
+	for i := range a {
+		a[i] = "t"
+	}
+	if n > 1 {
+		a[n-1] = "x y\nQUIT :z"
+	}
+	return a
+}
+
+func c08ReplayPair(v *Violation, firstName string) int {
+	first := c08FindMethod(firstName)
+	secondName, _ := v.Params["second"].(string)
+	second := c08FindMethod(secondName)
+	if first == nil {
+		fmt.Println("unknown method in replay file")
+		return 2
+	}
+	sl := 0
+	if f, ok := v.Params["splitlen"].(float64); ok {
+		sl = int(f)
+	}
+	var wrote string
+	o := RunSeq(vx.Options{}, func(env *vx.Env) {
+		s, err := StartSession(env, "me", func(cfg *client.Config) { cfg.SplitLen = sl }, nil)
+		if err != nil {
+			return
+		}
+		first.Call(s.C, c08PairArgs(first))
+		vx.Quiesce()
+		n0 := len(s.VC.Transcript())
+		if second != nil {
+			second.Call(s.C, c08PairArgs(second))
+			vx.Quiesce()
+		}
+		wrote = s.VC.Transcript()[n0:]
+		s.End()
+	})
+	fmt.Printf("calls: %s%s then %s, SplitLen=%d\noutcome: %s\nbytes written by the second call: %s\n", first.Name, c08ClipArgs(c08PairArgs(first)), secondName, sl, o.Kind, Q(wrote))
+	if o.Kind != "ok" && o.Kind == v.Oracle {
+		fmt.Println("REPRODUCED")
+		return 1
+	}
+	if second != nil {
+		if _, oracle, msg := c08Judge(second, c08PairArgs(second), wrote); oracle != "" {
+			fmt.Printf("FINDING oracle=%s %s\n", oracle, msg)
+			if oracle == v.Oracle {
+				fmt.Println("REPRODUCED")
+				return 1
+			}
+		}
+	}
+	fmt.Println("NOT REPRODUCED")
+	return 0
+}
+
+// c08PairsJob: every ordered pair of command methods called one after the other on one connection with the
+// same target and text (what one call leaves behind must not leak into the next): the second call's lines are
+// judged like any other call's.
+func c08PairsJob(first *c08Method) Job {
+	name := "pairs/after-" + first.Name
+	return Job{Name: name, Cost: 5, Run: func(jc *JobCtx) *JobResult {
+		e := NewEnum(name)
+		mk := c08PairArgs
+		type res struct {
+			m     *c08Method
+			wrote string
+		}
+		for _, sl := range []int{0, 20} {
+			var out []res
+			var connErr error
+			o := RunSeq(vx.Options{MaxSteps: 2000000}, func(env *vx.Env) {
+				s, err := StartSession(env, "me", func(cfg *client.Config) { cfg.SplitLen = sl }, nil)
+				if err != nil {
+					connErr = err
+					return
+				}
+				for i := range c08Methods {
+					m2 := &c08Methods[i]
+					first.Call(s.C, mk(first))
+					vx.Quiesce()
+					n0 := len(s.VC.Transcript())
+					m2.Call(s.C, mk(m2))
+					vx.Quiesce()
+					out = append(out, res{m2, s.VC.Transcript()[n0:]})
+				}
+				s.End()
+			})
+			if connErr != nil {
+				e.R.Error = "connect failed in harness: " + connErr.Error()
+				return e.Done()
+			}
+			if o.Kind != "ok" {
+				e.Fail("calls", o.Kind, fmt.Sprintf("%s then every method, SplitLen=%d", first.Name, sl), "session ended with "+o.Kind, map[string]interface{}{"first": first.Name, "splitlen": sl})
+			}
+			for _, r := range out {
+				e.Case(fmt.Sprintf("%d|%s|%s", sl, first.Name, r.m.Name))
+				if _, oracle, msg := c08Judge(r.m, mk(r.m), r.wrote); oracle != "" {
+					e.Fail("calls", oracle, fmt.Sprintf("%s(...) then %s(%s), SplitLen=%d", first.Name, r.m.Name, c08ClipArgs(mk(r.m)), sl), msg, map[string]interface{}{"first": first.Name, "second": r.m.Name, "splitlen": sl})
+				}
+			}
+		}
+		return e.Done()
+	}}
+}
+
 func c08Jobs(tier string) []Job {
 	sls := []int{-1, 0, 12, 13, 20, 450}
 	if tier == "thorough" {
@@ -350,6 +459,9 @@ func c08Jobs(tier string) []Job {
 		chunk = 8000
 	}
 	var jobs []Job
+	for mi := range c08Methods {
+		jobs = append(jobs, c08PairsJob(&c08Methods[mi]))
+	}
 	for mi := range c08Methods {
 		m := &c08Methods[mi]
 		type cfg struct {
@@ -386,7 +498,7 @@ func init() {
 		ID: "C08",
 		Rule: "every exported command method of *client.Conn (28; Privmsgf both with format \"%s\" + menu string and with the menu string as the format) x every tuple of the 14 menu strings (thorough: 20) " +
 			"(empty, plain, CR, LF, CRLF, embedded CR/LF followed by a second command, NUL, \\x01, 600 bytes, 600 bytes + LF + command) in all argument positions (variadic methods with 0, 1 and 2 extra arguments; full product, up to 4 positions for Kick/Ctcp/CtcpReply) " +
-			"x Config.SplitLen in {-1,0,12,13,20,450} (thorough: 15 values) for the splitting methods; one evaluation = one call on a connected client, judged on the raw bytes that reached the server end of the socket before the next quiescence; " +
+			"x Config.SplitLen in {-1,0,12,13,20,450} (thorough: 15 values) for the splitting methods; one evaluation = one call on a connected client, judged on the raw bytes that reached the server end of the socket before the next quiescence; plus every ordered pair of methods called one after the other on one connection with the same target (SplitLen default and 20), the second call judged; " +
 			"distinct = distinct (method, SplitLen, argument tuple) whose call wrote at least one byte (a call that writes nothing is trivial)",
 		Assumptions: []string{
 			"calls are made one at a time from a single task on a registered, idle connection (no server traffic, PingFreq=0), so the bytes between two quiescent points belong to one call",
@@ -410,6 +522,9 @@ func init() {
 
 // c08Replay re-executes the single call recorded in a violation file.
 func c08Replay(v *Violation) int {
+	if f, ok := v.Params["first"].(string); ok {
+		return c08ReplayPair(v, f)
+	}
 	name, _ := v.Params["method"].(string)
 	m := c08FindMethod(name)
 	if m == nil {
